@@ -45,8 +45,8 @@ package revocation
 //@   requires tls_chains_are_parsed_certificates: chainsNonNil(verifiedChains)
 //@   requires handshake_holds_no_locks: norwlocks()
 //@   assigns *
-//@   ensures[C03] ocsp_only_if_enabled: called(OCSPRevocationChecker.IsRevoked#1) ==> ocspEnabled(old(c.ModeParsed))
-//@   ensures[C03] crl_only_if_enabled: called(CRLRevocationChecker.IsRevoked#1) ==> crlEnabled(old(c.ModeParsed))
+//@   ensures[C03] ocsp_only_if_enabled: called(OCSPRevocationChecker.IsRevoked#any) ==> ocspEnabled(old(c.ModeParsed))
+//@   ensures[C03] crl_only_if_enabled: called(CRLRevocationChecker.IsRevoked#any) ==> crlEnabled(old(c.ModeParsed))
 //@   ensures[C02,C03] ocsp_consulted: len(verifiedChains) > 0 && ocspEnabled(old(c.ModeParsed)) ==> called(OCSPRevocationChecker.IsRevoked#1)
 //@   ensures[C01,C03] crl_consulted: len(verifiedChains) > 0 && crlEnabled(old(c.ModeParsed)) && !(called(OCSPRevocationChecker.IsRevoked#1) && (res(OCSPRevocationChecker.IsRevoked#1, 1) != nil || res(OCSPRevocationChecker.IsRevoked#1, 0).Revoked)) ==> called(CRLRevocationChecker.IsRevoked#1)
 //@   ensures[C03] disabled_touches_nothing: old(c.ModeParsed) == config.RevocationCheckModeDisabled ==> ret == nil && !called(OCSPRevocationChecker.IsRevoked#1) && !called(CRLRevocationChecker.IsRevoked#1)
